@@ -188,6 +188,32 @@ Proof.
       * injection H as <- <- <-. reflexivity.
 Qed.
 
+(* ------------------------------------------------------------------ ValidateAndExecuteDirectives *)
+Lemma ext_set_hooks_back step g g1 : ext step g g1 -> ext step g (set_hooks g1 (g_hooks g)).
+Proof.
+  intros [A1 A2 A3 A4 A5 A6 A7]. constructor; simpl; auto.
+  exists O. simpl. symmetry. apply app_nil_r.
+Qed.
+
+Lemma do_validate_ext step e c g r g' :
+  do_validate step e c g = (r, g') ->
+  ext step g g' /\ (r <> ROk -> g_hooks g' = g_hooks g) /\ (g_htlock g = false -> r <> RHang) /\
+  (no_auth (c_effs c) = true -> g_htcache g' = g_htcache g).
+Proof.
+  unfold do_validate. intros H.
+  destruct (negb (parse_ok c)).
+  { injection H as <- <-. split; [apply ext_refl|]. split; [reflexivity|]. split; [discriminate|reflexivity]. }
+  destruct (exec_effs step e (c_effs c) g l0) as [[r1 g1] l] eqn:E1.
+  pose proof (exec_effs_ext _ _ _ _ _ _ _ _ E1) as X.
+  assert (NH : g_htlock g = false -> r1 <> RHang) by (intros L; eapply exec_effs_no_hang; eauto).
+  assert (NA : no_auth (c_effs c) = true -> g_htcache g1 = g_htcache g)
+    by (intros A; exact (proj1 (exec_effs_no_auth_same _ _ _ _ _ _ _ _ A E1))).
+  destruct r1; injection H as <- <-.
+  - split; [exact X|]. split; [congruence|]. split; assumption.
+  - split; [apply ext_set_hooks_back; exact X|]. split; [reflexivity|]. split; assumption.
+  - split; [apply ext_set_hooks_back; exact X|]. split; [reflexivity|]. split; assumption.
+Qed.
+
 (* ------------------------------------------------------------------ startup callbacks *)
 (* g' differs from g at most by additional rollers *)
 Record rext (g g' : gstate) : Prop := {
@@ -434,10 +460,10 @@ Qed.
 Lemma grow_set_socks step g g' x n : grow step g g' -> grow step g (set_socks g' x n).
 Proof. intros [A1 A2 A3 A4 A5]. constructor; auto. Qed.
 
-Lemma start_with_grow step e c old g r g' oi :
-  start_with step e c old g = (r, g', oi) -> grow step g g'.
+Lemma start_body_grow step e c old g r g' oi :
+  start_body step e c old g = (r, g', oi) -> grow step g g'.
 Proof.
-  unfold start_with. intros H.
+  unfold start_body. intros H.
   destruct (negb (parse_ok c)); [injection H as <- <- <-; apply grow_refl|].
   destruct (exec_effs step e (c_effs c) g l0) as [[r1 g1] l] eqn:E1.
   pose proof (ext_grow _ _ _ (exec_effs_ext _ _ _ _ _ _ _ _ E1)) as G1.
@@ -451,13 +477,32 @@ Proof.
   destruct r3; injection H as <- <- <-; [exact G|apply grow_set_socks; exact G|apply grow_set_socks; exact G].
 Qed.
 
+Lemma start_with_grow step e c old g r g' oi :
+  start_with step e c old g = (r, g', oi) -> grow step g g'.
+Proof.
+  unfold start_with. intros H.
+  destruct (start_body step e c old g) as [[r1 g1] oi1] eqn:B.
+  pose proof (start_body_grow _ _ _ _ _ _ _ _ B) as [A1 A2 A3 A4 A5].
+  destruct r1; injection H as <- <- <-; constructor; simpl; auto;
+    exists O; simpl; symmetry; apply app_nil_r.
+Qed.
+
+(* a failing start puts the hook registry back exactly *)
+Lemma start_with_hooks step e c old g r g' oi :
+  start_with step e c old g = (r, g', oi) -> r <> ROk -> g_hooks g' = g_hooks g.
+Proof.
+  unfold start_with. intros H NR.
+  destruct (start_body step e c old g) as [[r1 g1] oi1].
+  destruct r1; injection H as <- <- <-; [congruence|reflexivity|reflexivity].
+Qed.
+
 (* the socket table: a failing start gives it back as it was, a succeeding one closes nothing *)
-Lemma start_with_socks step e c old g r g' oi :
-  socks_ok g -> start_with step e c old g = (r, g', oi) ->
+Lemma start_body_socks step e c old g r g' oi :
+  socks_ok g -> start_body step e c old g = (r, g', oi) ->
   socks_ok g' /\ (r = ROk -> socks_le (g_socks g) (g_socks g')) /\
   (r <> ROk -> g_socks g' = g_socks g /\ g_next g' = g_next g).
 Proof.
-  unfold start_with. intros T H.
+  unfold start_body. intros T H.
   assert (SAME : forall ga, g_socks ga = g_socks g -> g_next ga = g_next g ->
                  socks_ok ga /\ (RErr = ROk -> socks_le (g_socks g) (g_socks ga)) /\
                  (g_socks ga = g_socks g /\ g_next ga = g_next g)).
@@ -492,10 +537,21 @@ Proof.
     split; [exact A|]. split; [discriminate|intros _; exact B].
 Qed.
 
-Lemma start_with_no_hang step e c old g r g' oi :
-  g_htlock g = false -> start_with step e c old g = (r, g', oi) -> r <> RHang.
+Lemma start_with_socks step e c old g r g' oi :
+  socks_ok g -> start_with step e c old g = (r, g', oi) ->
+  socks_ok g' /\ (r = ROk -> socks_le (g_socks g) (g_socks g')) /\
+  (r <> ROk -> g_socks g' = g_socks g /\ g_next g' = g_next g).
 Proof.
-  unfold start_with. intros L H.
+  unfold start_with. intros T H.
+  destruct (start_body step e c old g) as [[r1 g1] oi1] eqn:B.
+  pose proof (start_body_socks _ _ _ _ _ _ _ _ T B) as S.
+  destruct r1; injection H as <- <- <-; exact S.
+Qed.
+
+Lemma start_body_no_hang step e c old g r g' oi :
+  g_htlock g = false -> start_body step e c old g = (r, g', oi) -> r <> RHang.
+Proof.
+  unfold start_body. intros L H.
   destruct (negb (parse_ok c)); [injection H as <- <- <-; discriminate|].
   destruct (exec_effs step e (c_effs c) g l0) as [[r1 g1] l] eqn:E1.
   pose proof (exec_effs_no_hang _ _ _ _ _ _ _ _ L E1) as N1.
@@ -508,10 +564,19 @@ Proof.
   destruct r3; injection H as <- <- <-; congruence.
 Qed.
 
-Lemma start_with_ok_some step e c old g g' oi :
-  start_with step e c old g = (ROk, g', oi) -> exists ni, oi = Some ni.
+Lemma start_with_no_hang step e c old g r g' oi :
+  g_htlock g = false -> start_with step e c old g = (r, g', oi) -> r <> RHang.
 Proof.
-  unfold start_with. intros H.
+  unfold start_with. intros L H.
+  destruct (start_body step e c old g) as [[r1 g1] oi1] eqn:B.
+  pose proof (start_body_no_hang _ _ _ _ _ _ _ _ L B) as NH.
+  destruct r1; injection H as <- <- <-; exact NH.
+Qed.
+
+Lemma start_body_ok_some step e c old g g' oi :
+  start_body step e c old g = (ROk, g', oi) -> exists ni, oi = Some ni.
+Proof.
+  unfold start_body. intros H.
   destruct (negb (parse_ok c)); [discriminate|].
   destruct (exec_effs step e (c_effs c) g l0) as [[r1 g1] l].
   destruct r1; try discriminate.
@@ -519,6 +584,14 @@ Proof.
   destruct r2; try discriminate.
   destruct (start_servers old (c_addrs c) g2 []) as [[r3 g3] srv].
   destruct r3; try discriminate. injection H as <- <-. eauto.
+Qed.
+
+Lemma start_with_ok_some step e c old g g' oi :
+  start_with step e c old g = (ROk, g', oi) -> exists ni, oi = Some ni.
+Proof.
+  unfold start_with. intros H.
+  destruct (start_body step e c old g) as [[r1 g1] oi1] eqn:B.
+  destruct r1; try discriminate. injection H as <- <-. eapply start_body_ok_some; eauto.
 Qed.
 
 (* every attempt leaves the mutex as it found it *)
@@ -537,17 +610,13 @@ Proof.
   - unfold do_load in H. destruct (start_with step e c [] g) as [[r1 g1] oi] eqn:S.
     pose proof (w_lock _ _ _ (start_with_grow _ _ _ _ _ _ _ _ S)) as L.
     destruct r1; [destruct oi|..]; injection H as <- <-; simpl; exact L.
-  - unfold do_validate in H. destruct (negb (parse_ok c)); [injection H as <- <-; reflexivity|].
-    destruct (exec_effs step e (c_effs c) g l0) as [[r1 g1] l] eqn:E1.
-    injection H as <- <-. exact (x_lock _ _ _ (exec_effs_ext _ _ _ _ _ _ _ _ E1)).
+  - exact (x_lock _ _ _ (proj1 (do_validate_ext _ _ _ _ _ _ H))).
   - eapply RL; eauto.
   - unfold do_sigusr1 in H. destruct (g_insts g) as [|old rest] eqn:GI; [injection H as <- <-; reflexivity|].
     destruct (do_reload step e c (set_hooks g [])) as [r1 g1] eqn:R.
     apply RL in R. simpl in R.
     destruct r1; injection H as <- <-; simpl; exact R.
-  - unfold do_validate in H. destruct (negb (parse_ok c)); [injection H as <- <-; reflexivity|].
-    destruct (exec_effs step e (c_effs c) g l0) as [[r1 g1] l] eqn:E1.
-    injection H as <- <-. exact (x_lock _ _ _ (exec_effs_ext _ _ _ _ _ _ _ _ E1)).
+  - exact (x_lock _ _ _ (proj1 (do_validate_ext _ _ _ _ _ _ H))).
 Qed.
 
 Lemma attempt_no_hang m step e c g r g' :
@@ -563,17 +632,13 @@ Proof.
   - unfold do_load in H. destruct (start_with step e c [] g) as [[r1 g1] oi] eqn:S.
     pose proof (start_with_no_hang _ _ _ _ _ _ _ _ L S) as NH.
     destruct r1; [destruct oi|..]; injection H as <- <-; congruence.
-  - unfold do_validate in H. destruct (negb (parse_ok c)); [injection H as <- <-; discriminate|].
-    destruct (exec_effs step e (c_effs c) g l0) as [[r1 g1] l] eqn:E1.
-    injection H as <- <-. eapply exec_effs_no_hang; eauto.
+  - destruct (do_validate_ext _ _ _ _ _ _ H) as (_ & _ & NH & _). auto.
   - eapply RL; eauto.
   - unfold do_sigusr1 in H. destruct (g_insts g) as [|old rest] eqn:GI; [injection H as <- <-; discriminate|].
     destruct (do_reload step e c (set_hooks g [])) as [r1 g1] eqn:R.
     apply RL in R; [|exact L].
     destruct r1; injection H as <- <-; congruence.
-  - unfold do_validate in H. destruct (negb (parse_ok c)); [injection H as <- <-; discriminate|].
-    destruct (exec_effs step e (c_effs c) g l0) as [[r1 g1] l] eqn:E1.
-    injection H as <- <-. eapply exec_effs_no_hang; eauto.
+  - destruct (do_validate_ext _ _ _ _ _ _ H) as (_ & _ & NH & _). auto.
 Qed.
 
 (* ------------------------------------------------------------------ a failed attempt loses nothing *)
@@ -593,9 +658,7 @@ Proof.
   - unfold do_load in H. destruct (start_with step e c [] g) as [[r1 g1] oi] eqn:S.
     pose proof (start_with_grow _ _ _ _ _ _ _ _ S) as G.
     destruct r1; [destruct oi|..]; injection H as <- <-; try exact G. congruence.
-  - unfold do_validate in H. destruct (negb (parse_ok c)); [injection H as <- <-; apply grow_refl|].
-    destruct (exec_effs step e (c_effs c) g l0) as [[r1 g1] l] eqn:E1.
-    injection H as <- <-. apply ext_grow. eapply exec_effs_ext; eauto.
+  - apply ext_grow. exact (proj1 (do_validate_ext _ _ _ _ _ _ H)).
   - eapply failed_reload_grow; eauto.
   - unfold do_sigusr1 in H. destruct (g_insts g) as [|old rest] eqn:GI; [injection H as <- <-; apply grow_refl|].
     destruct (do_reload step e c (set_hooks g [])) as [r1 g1] eqn:R.
@@ -604,18 +667,33 @@ Proof.
       constructor; simpl in *; auto. exists O. simpl. symmetry. apply app_nil_r.
     + apply failed_reload_grow in R; [|discriminate]. destruct R as [R1 R2 R3 R4 R5].
       constructor; simpl in *; auto. exists O. simpl. symmetry. apply app_nil_r.
-  - unfold do_validate in H. destruct (negb (parse_ok c)); [injection H as <- <-; apply grow_refl|].
-    destruct (exec_effs step e (c_effs c) g l0) as [[r1 g1] l] eqn:E1.
-    injection H as <- <-. apply ext_grow. eapply exec_effs_ext; eauto.
+  - apply ext_grow. exact (proj1 (do_validate_ext _ _ _ _ _ _ H)).
 Qed.
 
-(* the SIGUSR1 path puts the hook registry back exactly *)
+(* every failing attempt puts the hook registry back exactly (the SIGUSR1 path does so twice: the failing
+   Restart restores the purged registry it found, the signal handler then restores the saved one) *)
 Lemma failed_sigusr1_hooks step e c g r g' :
   do_sigusr1 step e c g = (r, g') -> r <> ROk -> g_hooks g' = g_hooks g.
 Proof.
   unfold do_sigusr1. intros H NR. destruct (g_insts g) as [|old rest]; [injection H as <- <-; reflexivity|].
   destruct (do_reload step e c (set_hooks g [])) as [r1 g1].
   destruct r1; injection H as <- <-; try congruence; reflexivity.
+Qed.
+
+Lemma failed_attempt_hooks m step e c g r g' :
+  attempt m step e c g = (r, g') -> r <> ROk -> g_hooks g' = g_hooks g.
+Proof.
+  destruct m; simpl; intros H NR.
+  - unfold do_load in H. destruct (start_with step e c [] g) as [[r1 g1] oi] eqn:S.
+    destruct r1; [destruct (start_with_ok_some _ _ _ _ _ _ _ S) as [ni ->]; injection H as <- <-; congruence|..];
+      injection H as <- <-; eapply start_with_hooks; eauto.
+  - destruct (do_validate_ext _ _ _ _ _ _ H) as (_ & HK & _). auto.
+  - unfold do_reload in H. destruct (g_insts g) as [|old rest]; [injection H as <- <-; reflexivity|].
+    destruct (start_with step e c (i_servers old) g) as [[r1 g1] oi] eqn:S.
+    destruct r1; [destruct (start_with_ok_some _ _ _ _ _ _ _ S) as [ni ->]; injection H as <- <-; congruence|..];
+      injection H as <- <-; eapply start_with_hooks; eauto.
+  - eapply failed_sigusr1_hooks; eauto.
+  - destruct (do_validate_ext _ _ _ _ _ _ H) as (_ & HK & _). auto.
 Qed.
 
 (* ------------------------------------------------------------------ well-formed states *)
@@ -650,10 +728,10 @@ Proof.
       * injection H as <- <- <-. intros a' s' [].
 Qed.
 
-Lemma start_with_inst_wf step e c old g g' ni :
-  srv_wf old -> start_with step e c old g = (ROk, g', Some ni) -> srv_wf (i_servers ni).
+Lemma start_body_inst_wf step e c old g g' ni :
+  srv_wf old -> start_body step e c old g = (ROk, g', Some ni) -> srv_wf (i_servers ni).
 Proof.
-  unfold start_with. intros WO H.
+  unfold start_body. intros WO H.
   destruct (negb (parse_ok c)); [discriminate|].
   destruct (exec_effs step e (c_effs c) g l0) as [[r1 g1] l].
   destruct r1; try discriminate.
@@ -662,6 +740,14 @@ Proof.
   destruct (start_servers old (c_addrs c) g2 []) as [[r3 g3] srv] eqn:E3.
   destruct r3; try discriminate. injection H as <- <-. simpl.
   eapply start_servers_wf; [exact WO| |exact E3]. intros a sid [].
+Qed.
+
+Lemma start_with_inst_wf step e c old g g' ni :
+  srv_wf old -> start_with step e c old g = (ROk, g', Some ni) -> srv_wf (i_servers ni).
+Proof.
+  unfold start_with. intros WO H.
+  destruct (start_body step e c old g) as [[r1 g1] oi1] eqn:B.
+  destruct r1; try discriminate. injection H as E1 E2. subst g1 oi1. eapply start_body_inst_wf; eauto.
 Qed.
 
 Lemma fold_close_ok l : forall socks next, table_ok socks next -> table_ok (fold_left close_fd l socks) next.
@@ -690,10 +776,7 @@ Qed.
 Lemma attempt_wf m step e c g r g' : wf g -> attempt m step e c g = (r, g') -> wf g'.
 Proof.
   assert (VL : forall g r g', wf g -> do_validate step e c g = (r, g') -> wf g').
-  { clear. intros g r g' [W T] H. unfold do_validate in H.
-    destruct (negb (parse_ok c)); [injection H as <- <-; split; assumption|].
-    destruct (exec_effs step e (c_effs c) g l0) as [[r1 g1] l] eqn:E1.
-    injection H as <- <-. pose proof (exec_effs_ext _ _ _ _ _ _ _ _ E1) as X. split.
+  { clear. intros g r g' [W T] H. pose proof (proj1 (do_validate_ext _ _ _ _ _ _ H)) as X. split.
     - rewrite (x_insts _ _ _ X). exact W.
     - intros s Hs. rewrite (x_socks _ _ _ X) in Hs. rewrite (x_next _ _ _ X). apply T. exact Hs. }
   destruct m; simpl; intros W H.
@@ -722,10 +805,7 @@ Lemma failed_attempt_socks m step e c g r g' :
   g_socks g' = g_socks g /\ g_next g' = g_next g.
 Proof.
   assert (VL : forall g r g', do_validate step e c g = (r, g') -> g_socks g' = g_socks g /\ g_next g' = g_next g).
-  { clear. intros g r g' H. unfold do_validate in H.
-    destruct (negb (parse_ok c)); [injection H as <- <-; split; reflexivity|].
-    destruct (exec_effs step e (c_effs c) g l0) as [[r1 g1] l] eqn:E1.
-    injection H as <- <-. pose proof (exec_effs_ext _ _ _ _ _ _ _ _ E1) as X.
+  { clear. intros g r g' H. pose proof (proj1 (do_validate_ext _ _ _ _ _ _ H)) as X.
     split; [exact (x_socks _ _ _ X)|exact (x_next _ _ _ X)]. }
   assert (RL : forall g r g', socks_ok g -> do_reload step e c g = (r, g') -> r <> ROk ->
                g_socks g' = g_socks g /\ g_next g' = g_next g).
@@ -753,16 +833,16 @@ Qed.
 
 (* ------------------------------------------------------------------ harmless failures are the identity *)
 
-Lemma start_with_harmless step e c old g r g' oi :
+Lemma start_body_harmless step e c old g r g' oi :
   socks_ok g -> no_auth (c_effs c) = true -> no_log (c_effs c) = true ->
-  start_with step e c old g = (r, g', oi) -> r <> ROk ->
+  start_body step e c old g = (r, g', oi) -> r <> ROk ->
   g_insts g' = g_insts g /\ g_htcache g' = g_htcache g /\ g_htlock g' = g_htlock g /\
   g_rollers g' = g_rollers g /\ g_socks g' = g_socks g /\ g_next g' = g_next g /\
   (no_on (c_effs c) = true -> g_hooks g' = g_hooks g).
 Proof.
   intros T NA NL H NR.
-  destruct (start_with_socks _ _ _ _ _ _ _ _ T H) as (_ & _ & KO). destruct (KO NR) as [KS KN].
-  revert H. unfold start_with. intros H.
+  destruct (start_body_socks _ _ _ _ _ _ _ _ T H) as (_ & _ & KO). destruct (KO NR) as [KS KN].
+  revert H. unfold start_body. intros H.
   destruct (negb (parse_ok c)); [injection H as <- <- <-; repeat split; auto|].
   destruct (exec_effs step e (c_effs c) g l0) as [[r1 g1] l] eqn:E1.
   pose proof (exec_effs_ext _ _ _ _ _ _ _ _ E1) as X.
@@ -781,55 +861,52 @@ Proof.
   - intros NO. rewrite Z2. auto.
 Qed.
 
+Lemma start_with_harmless step e c old g r g' oi :
+  socks_ok g -> no_auth (c_effs c) = true -> no_log (c_effs c) = true ->
+  start_with step e c old g = (r, g', oi) -> r <> ROk -> g' = g.
+Proof.
+  unfold start_with. intros T NA NL H NR.
+  destruct (start_body step e c old g) as [[r1 g1] oi1] eqn:B.
+  assert (NR1 : r1 <> ROk) by (destruct r1; injection H as <- <- <-; congruence).
+  destruct (start_body_harmless _ _ _ _ _ _ _ _ T NA NL B NR1) as (A1 & A2 & A3 & A4 & A5 & A6 & _).
+  destruct r1; [congruence|..]; injection H as <- <- <-; apply gstate_eq; simpl; auto.
+Qed.
+
 Theorem failed_harmless0_identity m step e c g r g' :
   wf g -> harmless0 m c = true -> attempt m step e c g = (r, g') -> r <> ROk -> g' = g.
 Proof.
   intros [W T] HM H NR. unfold harmless0 in HM.
-  apply andb_true_iff in HM as [HM H3]. apply andb_true_iff in HM as [H1 H2].
+  apply andb_true_iff in HM as [H2 H3].
+  assert (VL : forall g r g', do_validate step e c g = (r, g') -> r <> ROk -> g' = g).
+  { clear - H2. intros g r g' H NR.
+    destruct (do_validate_ext _ _ _ _ _ _ H) as (X & HK & _ & HC). destruct X.
+    apply gstate_eq; auto. }
   assert (RL : forall g r g', socks_ok g -> no_log (c_effs c) = true ->
-            do_reload step e c g = (r, g') -> r <> ROk ->
-            g_insts g' = g_insts g /\ g_htcache g' = g_htcache g /\ g_htlock g' = g_htlock g /\
-            g_rollers g' = g_rollers g /\ g_socks g' = g_socks g /\ g_next g' = g_next g /\
-            (no_on (c_effs c) = true -> g_hooks g' = g_hooks g)).
+            do_reload step e c g = (r, g') -> r <> ROk -> g' = g).
   { clear - H2. intros g r g' T NL H NR. unfold do_reload in H.
-    destruct (g_insts g) as [|old rest] eqn:GI; [injection H as <- <-; repeat split; auto|].
+    destruct (g_insts g) as [|old rest] eqn:GI; [injection H as <- <-; reflexivity|].
     destruct (start_with step e c (i_servers old) g) as [[r1 g1] oi] eqn:S.
     assert (NR1 : r1 <> ROk).
     { intros ->. destruct (start_with_ok_some _ _ _ _ _ _ _ S) as [ni ->]. injection H as <- <-. congruence. }
-    pose proof (start_with_harmless _ _ _ _ _ _ _ _ T H2 NL S NR1) as F. rewrite GI in F.
-    destruct r1; [congruence|..]; injection H as <- <-; exact F. }
+    pose proof (start_with_harmless _ _ _ _ _ _ _ _ T H2 NL S NR1) as ->.
+    destruct r1; [congruence|..]; injection H as <- <-; reflexivity. }
   destruct m; simpl in H.
   - rename H3 into NL.
     unfold do_load in H. destruct (start_with step e c [] g) as [[r1 g1] oi] eqn:S.
     assert (NR1 : r1 <> ROk).
     { intros ->. destruct (start_with_ok_some _ _ _ _ _ _ _ S) as [ni ->]. injection H as <- <-. congruence. }
-    destruct (start_with_harmless step e c [] g r1 g1 oi T H2 NL S NR1) as (A1 & A2 & A3 & A4 & A5 & A6 & A7).
-    assert (g1 = g) as -> by (apply gstate_eq; auto).
+    pose proof (start_with_harmless step e c [] g r1 g1 oi T H2 NL S NR1) as ->.
     destruct r1; [congruence|..]; injection H as <- <-; reflexivity.
-  - unfold do_validate in H. destruct (negb (parse_ok c)); [injection H as <- <-; reflexivity|].
-    destruct (exec_effs step e (c_effs c) g l0) as [[r1 g1] l] eqn:E1.
-    injection H as <- <-.
-    pose proof (exec_effs_ext _ _ _ _ _ _ _ _ E1) as X.
-    pose proof (exec_effs_no_auth_same _ _ _ _ _ _ _ _ H2 E1) as [C1 L1].
-    pose proof (exec_effs_hooks_same _ _ _ _ _ _ _ _ H1 E1) as K1.
-    destruct X. apply gstate_eq; auto.
-  - rename H3 into NL.
-    destruct (RL _ _ _ T NL H NR) as (A1 & A2 & A3 & A4 & A5 & A6 & A7).
-    apply gstate_eq; auto.
+  - eapply VL; eauto.
+  - eapply RL; eauto.
   - rename H3 into NL.
     unfold do_sigusr1 in H. destruct (g_insts g) as [|old rest] eqn:GI; [injection H as <- <-; reflexivity|].
     destruct (do_reload step e c (set_hooks g [])) as [r1 g1] eqn:R.
     assert (r1 <> ROk) as NR1 by (destruct r1; injection H as <- <-; congruence).
     assert (T' : socks_ok (set_hooks g [])) by exact T.
-    destruct (RL _ _ _ T' NL R NR1) as (A1 & A2 & A3 & A4 & A5 & A6 & A7). simpl in *.
-    destruct r1; injection H as <- <-; try congruence; apply gstate_eq; simpl; auto.
-  - unfold do_validate in H. destruct (negb (parse_ok c)); [injection H as <- <-; reflexivity|].
-    destruct (exec_effs step e (c_effs c) g l0) as [[r1 g1] l] eqn:E1.
-    injection H as <- <-.
-    pose proof (exec_effs_ext _ _ _ _ _ _ _ _ E1) as X.
-    pose proof (exec_effs_no_auth_same _ _ _ _ _ _ _ _ H2 E1) as [C1 L1].
-    pose proof (exec_effs_hooks_same _ _ _ _ _ _ _ _ H1 E1) as K1.
-    destruct X. apply gstate_eq; auto.
+    pose proof (RL _ _ _ T' NL R NR1) as ->.
+    destruct r1; injection H as <- <-; try congruence; apply gstate_eq; reflexivity.
+  - eapply VL; eauto.
 Qed.
 
 (* an attempt does what it does on the part of the configuration it reaches *)
@@ -857,16 +934,20 @@ Lemma parse_ok_reached c : negb (parse_ok c) = true ->
   parse_ok {| c_id := c_id c; c_parse := c_parse c; c_effs := []; c_addrs := [] |} = parse_ok c.
 Proof. reflexivity. Qed.
 
-Lemma start_with_reached step e c old g :
-  start_with step e c old g = start_with step e (reached c) old g.
+Lemma start_body_reached step e c old g :
+  start_body step e c old g = start_body step e (reached c) old g.
 Proof.
   unfold reached. destruct (negb (parse_ok c)) eqn:P.
-  - unfold start_with. rewrite P. unfold parse_ok in *. simpl. rewrite P. reflexivity.
+  - unfold start_body. rewrite P. unfold parse_ok in *. simpl. rewrite P. reflexivity.
   - destruct (cut_bad (c_effs c)) as [pre bad] eqn:CB. destruct bad; [|reflexivity].
-    unfold start_with. rewrite P. simpl.
+    unfold start_body. rewrite P. simpl.
     destruct (exec_cut step e (c_effs c) pre g l0 l0 CB) as (r & g' & la & lb & E1 & E2 & NR).
     rewrite E1, E2. destruct r; [congruence|reflexivity|reflexivity].
 Qed.
+
+Lemma start_with_reached step e c old g :
+  start_with step e c old g = start_with step e (reached c) old g.
+Proof. unfold start_with. rewrite start_body_reached. reflexivity. Qed.
 
 Lemma do_validate_reached step e c g :
   do_validate step e c g = do_validate step e (reached c) g.
@@ -981,13 +1062,14 @@ Qed.
 Theorem failed_attempt_loses_nothing m step e c g r g' :
   wf g -> attempt m step e c g = (r, g') -> r <> ROk ->
   g_insts g' = g_insts g /\ g_htlock g' = g_htlock g /\
-  (exists k, g_hooks g' = g_hooks g ++ repeat step k) /\
+  g_hooks g' = g_hooks g /\
   (forall f x, assoc f (g_htcache g) = Some x -> assoc f (g_htcache g') = Some x) /\
   (forall f x, assoc f (g_rollers g) = Some x -> assoc f (g_rollers g') = Some x) /\
   g_socks g' = g_socks g.
 Proof.
   intros [W T] H NR. destruct (failed_attempt_grow _ _ _ _ _ _ _ H NR) as [G1 G2 G3 G4 G5].
-  destruct (failed_attempt_socks _ _ _ _ _ _ _ T H NR) as [S1 _]. auto 10.
+  destruct (failed_attempt_socks _ _ _ _ _ _ _ T H NR) as [S1 _].
+  pose proof (failed_attempt_hooks _ _ _ _ _ _ _ H NR) as HK. auto 10.
 Qed.
 
 (* ------------------------------------------------------------------ valid configurations load *)
@@ -1047,20 +1129,29 @@ Proof.
   destruct a; simpl in *; [reflexivity|discriminate].
 Qed.
 
-Lemma start_with_valid step e c old g :
+Lemma start_body_valid step e c old g :
   g_htlock g = false -> cfg_valid e c = true -> cache_fresh e g (c_effs c) ->
-  exists g' ni, start_with step e c old g = (ROk, g', Some ni) /\ i_cfg ni = c_id c /\
+  exists g' ni, start_body step e c old g = (ROk, g', Some ni) /\ i_cfg ni = c_id c /\
                 i_auth ni = expected_auth e (c_effs c) None.
 Proof.
   intros L V CF. unfold cfg_valid in V.
   apply andb_true_iff in V as [V V4]. apply andb_true_iff in V as [V V3]. apply andb_true_iff in V as [V1 V2].
-  unfold start_with. rewrite V1. simpl.
+  unfold start_body. rewrite V1. simpl.
   destruct (exec_effs_valid step e (c_effs c) g l0 L V2 CF) as (g1 & l1 & E1 & AO & AU); [intros t []|].
   rewrite E1.
   destruct (run_startups_all_ok (l_startups l1) g1 AO) as (g2 & E2). rewrite E2.
   destruct (start_servers old (c_addrs c) g2 []) as [[r3 g3] srv] eqn:E3.
   pose proof (start_servers_no_busy _ _ _ _ _ _ _ (forallb_free_no_busy _ V3) E3) as ->.
   eexists. eexists. split; [reflexivity|]. split; [reflexivity|exact AU].
+Qed.
+
+Lemma start_with_valid step e c old g :
+  g_htlock g = false -> cfg_valid e c = true -> cache_fresh e g (c_effs c) ->
+  exists g' ni, start_with step e c old g = (ROk, g', Some ni) /\ i_cfg ni = c_id c /\
+                i_auth ni = expected_auth e (c_effs c) None.
+Proof.
+  intros L V CF. destruct (start_body_valid step e c old g L V CF) as (g1 & ni & B & I).
+  unfold start_with. rewrite B. eauto.
 Qed.
 
 Theorem valid_load_succeeds step e c g :
@@ -1118,24 +1209,33 @@ Definition mkcfg (id : N) (effs : list effect) (addrs : list addr) : cfg :=
 Definition users (l : list (N * N)) : htfile := {| h_present := true; h_users := l; h_bad := false |}.
 
 Lemma frame_refuted :
-  (* hooks of a rejected configuration stay registered (load, validate, API reload) *)
-  (exists c g', attempt Load 1 [] c g0 = (RErr, g') /\ g_hooks g' <> g_hooks g0) /\
-  (exists c g', attempt Validate 1 [] c g0 = (RErr, g') /\ g_hooks g' <> g_hooks g0) /\
-  (exists c0 c g1 g', attempt Load 1 [] c0 g0 = (ROk, g1) /\ attempt Reload 2 [] c g1 = (RErr, g') /\
-                      g_hooks g' <> g_hooks g1) /\
   (* roller settings of a rejected configuration are registered *)
   (exists c g', attempt Load 1 [] c g0 = (RErr, g') /\ g_rollers g' <> g_rollers g0) /\
   (* the htpasswd file read by a rejected configuration is cached *)
   (exists e c g', attempt Load 1 e c g0 = (RErr, g') /\ g_htcache g' <> g_htcache g0).
 Proof.
   repeat split.
-  - exists (mkcfg 1 [EOn 1; EBad] [AEph 1]). eexists. split; [vm_compute; reflexivity|discriminate].
-  - exists (mkcfg 1 [EOn 1; EAuth 2 1] [AEph 1]). eexists. split; [vm_compute; reflexivity|discriminate].
-  - exists (mkcfg 1 [] [AEph 1]), (mkcfg 2 [EOn 1; EBad] [AEph 1]). eexists. eexists.
-    split; [vm_compute; reflexivity|]. split; [vm_compute; reflexivity|discriminate].
   - exists (mkcfg 1 [ELog 1 1 true] [ABusy]). eexists. split; [vm_compute; reflexivity|discriminate].
   - exists [(2, users [(2, 1)])], (mkcfg 1 [EAuth 2 1] [AEph 1]). eexists.
     split; [vm_compute; reflexivity|discriminate].
+Qed.
+
+(* hooks registered by a rejected configuration are taken out again: load, validate, API-driven execute and
+   reload, SIGUSR1 *)
+Lemma hooks_restored_witness :
+  (exists g', attempt Load 1 [] (mkcfg 1 [EOn 1; EBad] [AEph 1]) g0 = (RErr, g') /\ g_hooks g' = []) /\
+  (exists g', attempt Validate 1 [] (mkcfg 1 [EOn 1; EAuth 2 1] [AEph 1]) g0 = (RErr, g') /\ g_hooks g' = []) /\
+  (exists g', attempt Execute 1 [] (mkcfg 1 [EOn 2; EBad] [AEph 1]) g0 = (RErr, g') /\ g_hooks g' = []) /\
+  (exists g', attempt Load 1 [] (mkcfg 1 [EOn 1] [AEph 1; ABusy]) g0 = (RErr, g') /\ g_hooks g' = []) /\
+  (exists g1 g2, attempt Load 1 [] (mkcfg 1 [EOn 1] [AEph 1]) g0 = (ROk, g1) /\
+                 attempt Reload 2 [] (mkcfg 2 [EOn 2; EBad] [AEph 1]) g1 = (RErr, g2) /\
+                 g_hooks g2 = [1] /\ g_hooks g1 = [1]) /\
+  (exists g1 g2, attempt Load 1 [] (mkcfg 1 [EOn 1] [AEph 1]) g0 = (ROk, g1) /\
+                 attempt Sigusr1 2 [] (mkcfg 2 [EOn 2; EBad] [AEph 1]) g1 = (RErr, g2) /\
+                 g_hooks g2 = [1] /\ g_hooks g1 = [1]).
+Proof.
+  repeat split; try (eexists; vm_compute; split; reflexivity);
+    eexists; eexists; vm_compute; repeat split; reflexivity.
 Qed.
 
 (* the listeners a failing start opened before the failing one are closed again: the socket table and the
